@@ -598,3 +598,41 @@ Proof. intros I Hg Hq. apply (update_succeeds s pid p (bank s) 0 true I Hg Hq). 
 Lemma end_blocker_states_inv l s :
   inv s -> NoDup l -> (forall pid, In pid l -> In (height s, pid) (queue s)) -> inv (fold_left end_block_one l s).
 Proof. intros I Hnd Hd. exact (proj1 (end_block_fold l s I Hnd Hd)). Qed.
+
+(** ** released and refunded amounts are never negative, so neither ever exceeds what was funded *)
+Lemma released_in_nonneg s st pid d : inv s -> valid_step st -> 0 <= released_in s st pid d /\ 0 <= refunded_in s st pid d.
+Proof.
+  intros I Hv. unfold released_in, refunded_in.
+  destruct (get pid (pools s)) as [pa|] eqn:Hg; [|split; [lia|destruct (refund_event _ _ _ _ _); lia]].
+  destruct (pool_step_lemma s st pid pa Ok [] I Hv Hg) as (pb & Hgb & Hps). cbv zeta in Hgb, Hps.
+  fold (step_state s st) in Hgb. rewrite Hgb. fold (obs_before s) in Hps. fold (obs_after s st) in Hps.
+  pose proof (pi_rule _ _ (get_pool_inv _ _ _ I Hg)) as Hok.
+  split.
+  - apply rule_sum_nonneg. eapply Forall_impl; [|exact Hok]. intros r (_ & Hpb & _). unfold released.
+    destruct (Z.ltb_spec (p_last pa) (p_last pb)); destruct (0 <? p_locked pa); simpl; nia.
+  - destruct (refund_event (height s) (obs_before s) st (obs_after s st) pid); [|lia].
+    apply rule_sum_nonneg. unfold pool_step in Hps. clear -Hps.
+    remember (p_rules pa) as la. remember (p_rules pb) as lb. clear Heqla Heqlb.
+    induction Hps as [|ra rb la lb (_ & _ & He & _) _ IH]; constructor; [lia|exact IH].
+Qed.
+
+Lemma so_far_nonneg steps : forall s pid d, inv s -> Forall valid_step steps ->
+  0 <= released_so_far s steps pid d /\ 0 <= refunded_so_far s steps pid d.
+Proof.
+  induction steps as [|st steps IH]; simpl; intros s pid d I Hv; [lia|].
+  inversion Hv; subst. destruct (released_in_nonneg s st pid d I H1). destruct (IH (step_state s st) pid d (step_inv _ _ I H1) H2). lia.
+Qed.
+
+Lemma released_le_funded b h steps pid d : genesis_ok b h -> Forall valid_step steps ->
+  0 <= released_so_far (init b h) steps pid d <= funded (pools (run (init b h) steps)) pid d
+  /\ 0 <= refunded_so_far (init b h) steps pid d <= funded (pools (run (init b h) steps)) pid d
+  /\ 0 <= remaining (pools (run (init b h) steps)) pid d <= funded (pools (run (init b h) steps)) pid d.
+Proof.
+  intros G Hv. pose proof (inv_init b h G) as I0.
+  pose proof (budget_identity_lemma steps (init b h) pid d I0 Hv) as Hid.
+  destruct (so_far_nonneg steps (init b h) pid d I0 Hv) as [H1 H2].
+  assert (0 <= remaining (pools (run (init b h) steps)) pid d) as H3.
+  { unfold remaining. destruct (get pid (pools (run (init b h) steps))) as [p|] eqn:Hg; [|lia].
+    exact (rem_sum_nonneg _ _ d (get_pool_inv _ _ _ (run_inv steps _ I0 Hv) Hg)). }
+  unfold funded at 2, remaining at 2 in Hid. simpl in Hid. lia.
+Qed.
